@@ -6,11 +6,68 @@ C20_model_is_source_*.
 
 The scalar `forward` bodies live in `macro_rules! impl_kernel_f64_for_{rbf,rq}` with the point type `$t1`; the
 translator checks that the macros are instantiated at `f64` and `&f64` only (references are transparent) and reads
-`$t1` as f64.  The matrix-form `forward` (reshape / broadcast / dot_t plumbing) is outside the subset."""
+`$t1` as f64.
+
+The matrix-form `forward` (`impl_kernel_vec_for_{rbf,rq}`, instantiated at Matrix, Vector, &Matrix, &Vector) operates on
+Matrix values and is outside the expression translator's subset; since the repair that forms the differences first its body is
+    let (x, y) = (x.reshape(R1, C1), y.reshape(R2, C2));
+    assert!(x.size() > 0 && y.size() > 0, "..");
+    <expression>
+where <expression> is, token for token, the body of the scalar `forward`.  That shape is CHECKED here on the source text
+(anything else raises): the two reshape requests are read out and emitted (`kernels_matrix_form_x_reshape`,
+`kernels_matrix_form_y_reshape`), and the identity of the remaining expression with the scalar body -- the term translated
+above, read with x, y : Matrix -- is recorded (`kernels_matrix_form_rest_is_scalar_body`).  Proofs/TieA_kernels.v ties the
+reshape requests to `to_column` / `to_row` of Model/KernelsPlumbing.v; the call order of the Matrix operators inside the
+expression is the composition written in that file (tied by the bitwise correspondence)."""
 import os, re, sys
 sys.path.insert(0, os.path.join(os.path.dirname(os.path.abspath(__file__)), ".."))
 import rsexpr
 from rsexpr import Module, Translator, Config, Unsupported
+
+
+def _block(text, start):
+    """text[start] == '{': the text strictly inside the matching braces"""
+    depth = 0
+    for i in range(start, len(text)):
+        if text[i] == "{": depth += 1
+        elif text[i] == "}":
+            depth -= 1
+            if depth == 0: return text[start + 1:i]
+    raise Unsupported("kernels.rs: unbalanced braces")
+
+
+def _forward_body(text, mac):
+    """body of `fn forward` inside `macro_rules! mac`, comments blanked, white space removed"""
+    m = re.search(r"macro_rules!\s*" + mac + r"\s*\{", text)
+    if not m: raise Unsupported(f"kernels.rs: macro `{mac}` not found")
+    inner = _block(text, m.end() - 1)
+    f = re.search(r"fn\s+forward\s*\(\s*&self\s*,\s*x\s*:\s*\$t1\s*,\s*y\s*:\s*\$t1\s*\)\s*->\s*(?:\$t2|f64)\s*\{", inner)
+    if not f or len(re.findall(r"\bfn\b", inner)) != 1:
+        raise Unsupported(f"kernels.rs: `{mac}` is expected to define exactly `fn forward(&self, x: $t1, y: $t1)`")
+    return re.sub(r"\s+", "", _block(inner, f.end() - 1))
+
+
+def matrix_form(text):
+    """the matrix-form macros have the shape described in the module docstring; returns the two reshape requests"""
+    text = rsexpr.blank_comments(text)
+    shapes = set()
+    for vec, sc in (("impl_kernel_vec_for_rbf", "impl_kernel_f64_for_rbf"), ("impl_kernel_vec_for_rq", "impl_kernel_f64_for_rq")):
+        insts = re.findall(vec + r"!\s*\(([^)]*)\)\s*;", text)
+        if sorted(i.replace(" ", "") for i in insts) != ["&Matrix,Matrix", "&Vector,Matrix", "Matrix,Matrix", "Vector,Matrix"]:
+            raise Unsupported(f"kernels.rs: `{vec}!` is expected to be instantiated at Matrix, Vector, &Matrix, &Vector (-> Matrix) exactly, found {insts}")
+        body, scalar = _forward_body(text, vec), _forward_body(text, sc)
+        m = re.match(r'let\(x,y\)=\(x\.reshape\((-?\d+),(-?\d+)\),y\.reshape\((-?\d+),(-?\d+)\)\);'
+                     r'assert!\(x\.size\(\)>0&&y\.size\(\)>0,"[^"]*"\);', body)
+        if not m:
+            raise Unsupported(f"kernels.rs: `{vec}`: the matrix-form forward must start with `let (x, y) = (x.reshape(..), y.reshape(..)); "
+                              "assert!(x.size() > 0 && y.size() > 0, \"..\");`")
+        if body[m.end():] != scalar:
+            raise Unsupported(f"kernels.rs: `{vec}`: after the reshapes and the assertion the matrix-form forward must be, token for token, "
+                              f"the body of the scalar forward of `{sc}`; found `{body[m.end():]}` against `{scalar}`")
+        shapes.add(tuple(int(g) for g in m.groups()))
+    if len(shapes) != 1:
+        raise Unsupported(f"kernels.rs: the two matrix-form macros reshape their arguments differently: {sorted(shapes)}")
+    return shapes.pop()
 
 
 def generate(src_dir):
@@ -28,6 +85,16 @@ def generate(src_dir):
     out.append(tr.function("RationalQuadraticKernel", "forward", "RationalQuadraticKernel_forward", macro="impl_kernel_f64_for_rq").text)
     out.append(tr.function("RBFKernel", "new", "RBFKernel_new").text)
     out.append(tr.function("RationalQuadraticKernel", "new", "RationalQuadraticKernel_new").text)
+    r1, c1, r2, c2 = matrix_form(text)
+    z = lambda k: f"({k})%Z"
+    out.append("")
+    out.append("(* matrix form (impl_kernel_vec_for_rbf / impl_kernel_vec_for_rq at Matrix, Vector, &Matrix, &Vector), checked on the source text:\n"
+               "     let (x, y) = (x.reshape(R1, C1), y.reshape(R2, C2));  assert!(x.size() > 0 && y.size() > 0, ..);  <expression>\n"
+               "   with <expression> token for token the body of the scalar forward translated above *)")
+    out.append(f"Definition kernels_matrix_form_x_reshape : Z * Z := ({z(r1)}, {z(c1)}).")
+    out.append(f"Definition kernels_matrix_form_y_reshape : Z * Z := ({z(r2)}, {z(c2)}).")
+    out.append("Definition kernels_matrix_form_asserts_nonempty : bool := true.")
+    out.append("Definition kernels_matrix_form_rest_is_scalar_body : bool := true.")
     out.append("")
     out.append("(* translator notes: " + ("; ".join(tr.notes) or "none") + " *)")
     return "\n".join(out) + "\n"
